@@ -24,7 +24,9 @@ CONSTANTS
   NormTol,         \* | |v|-1 | * 1e12
   OrthTol,         \* max |v_i.v_j| * 1e12
   LowSlack,        \* |lambda_i - mu_i| may exceed kappa*sqrt(neigen)*tol by LowSlack/1000
-  PromiseIterMax   \* "within the iteration limit": the promise is read for iter_max >= this
+  PromiseIterMax,  \* "within the iteration limit": the promise is read for iter_max >= this
+  PromiseFloorMax  \* ... and for tolerances that are attainable in double precision: the rounding
+                   \* floor 64*eps*|A|_F is at most PromiseFloorMax/1000 of the tolerance
 
 VARIABLES l, sid
 
@@ -43,12 +45,13 @@ PctMatches(pct, k, n) == (pct * n - 10000 * k) \in (0 - n)..n
 ----------------------------------------------------------------------------
 (* 1. property predicates *)
 
-SuccessFamilies == {"dd", "ddflat"}      \* SYMM: diagonally dominant
-LowestFamiliesSymm == {"dd", "ddflat"}
+SuccessFamilies == {"dd", "ddweak", "ddflat"}      \* SYMM: diagonally dominant
+LowestFamiliesSymm == {"dd", "ddweak", "ddflat"}
 LowestFamiliesHam == {"bse"}             \* HAM: [[A,B],[-B,-A]], A diagonally dominant, A+-B positive definite
 
 PromisedSuccess(B, E) ==
-  B.mode = "SYMM" /\ B.fam \in SuccessFamilies /\ E.famok = 1 /\ B.itermax >= PromiseIterMax
+  /\ B.mode = "SYMM" /\ B.fam \in SuccessFamilies /\ E.famok = 1
+  /\ B.itermax >= PromiseIterMax /\ E.floorq <= PromiseFloorMax
 PromisedLowest(B, E) ==
   /\ E.famok = 1 /\ E.denseok = 1
   /\ \/ B.mode = "SYMM" /\ B.fam \in LowestFamiliesSymm
